@@ -233,60 +233,159 @@ func kcoq(k string) string {
 	return "KZero"
 }
 
+type parkedW struct {
+	ch   chan wresT
+	p    []byte
+	res  *wresT
+	sent bool // the shadow already accounted for its buffer (a concurrent Read consumed it)
+}
+type parkedR struct {
+	ch  chan rresT
+	n   int
+	res *rresT
+}
+
 func runPipe(d desc) hlib.Case {
 	pc := fasthttputil.NewPipeConns()
 	conn := [3]net.Conn{nil, pc.Conn1(), pc.Conn2()}
 	var sh shadow
+	var wsoon, rsoon [3]bool
 	var recs []string
 	sig := map[string]bool{}
-	var pw [3]chan wresT // parked writes by end
-	var pwp [3][]byte
-	var pr [3]chan rresT
-	var prn [3]int
-	parked := func() bool { return pw[1] != nil || pw[2] != nil || pr[1] != nil || pr[2] != nil }
+	var pw [3]*parkedW
+	var pr [3]*parkedR
+	inflight := func() bool {
+		for e := 1; e <= 2; e++ {
+			if (pw[e] != nil && pw[e].res == nil) || (pr[e] != nil && pr[e].res == nil) {
+				return true
+			}
+		}
+		return false
+	}
 	total := 0
+	blocked := false
+	// shadow read: what Read(n) consumes; k = bytes really returned (a parked writer's buffer may have slipped in)
+	shRead := func(e, n, k int) {
+		dd := &sh.d[rd(e)]
+		got := 0
+		rem := n
+		step := func() {
+			if dd.cur > 0 {
+				t := min(rem, dd.cur)
+				dd.cur -= t
+				rem -= t
+				got += t
+			}
+			for rem > 0 && len(dd.chunks) > 0 {
+				c := dd.chunks[0]
+				dd.chunks = dd.chunks[1:]
+				t := min(rem, c)
+				dd.cur = c - t
+				rem -= t
+				got += t
+			}
+		}
+		step()
+		we := 3 - e // the end that writes to the direction e reads from
+		if got < k && pw[we] != nil && !pw[we].sent {
+			pw[we].sent = true
+			dd.chunks = append(dd.chunks, len(pw[we].p))
+			step()
+		}
+	}
+	// parked calls that can continue are waited for (their result is kept until the join)
+	settle := func() {
+		settleW := func() {
+			for e := 1; e <= 2; e++ {
+				w := pw[e]
+				if w == nil || w.res != nil {
+					continue
+				}
+				dd := &sh.d[wd(e)]
+				if w.sent || len(dd.chunks) < 4 || sh.stopped {
+					select {
+					case r := <-w.ch:
+						w.res = &r
+						if r.err == nil && !w.sent {
+							dd.chunks = append(dd.chunks, len(w.p))
+						}
+						dd.wpark = false
+					case <-time.After(longWait):
+					}
+				}
+			}
+		}
+		settleW()
+		for e := 1; e <= 2; e++ {
+			r := pr[e]
+			if r == nil || r.res != nil {
+				continue
+			}
+			dd := &sh.d[rd(e)]
+			if len(dd.chunks) > 0 || sh.stopped {
+				select {
+				case x := <-r.ch:
+					r.res = &x
+					shRead(e, r.n, len(x.d))
+					dd.rpark = false
+				case <-time.After(longWait):
+				}
+			}
+		}
+		settleW()
+	}
 	emit := func(e int, op, obs string) {
 		snap := "[]"
-		if !parked() && obs != "ObBlocked" {
+		if !inflight() && obs != "ObBlocked" {
 			s, _ := fasthttputil.VerifPipeSnapshot(pc)
 			snap = fmt.Sprintf("[%d; %d; %d; %d]", s[0], s[1], s[2], s[3])
 		}
 		recs = append(recs, fmt.Sprintf("mkPR %s %s %s %s", hlib.Bool(e == 1), op, obs, snap))
 	}
-	blocked := false
 	doWrite := func(e int, p []byte, split bool) {
-		_, forever := sh.writeBlocks(e)
+		blocks, forever := sh.writeBlocks(e)
+		if wsoon[e] {
+			split = false // the timer would race with the observation "parked"
+		}
 		ch := make(chan wresT, 1)
 		go func() { n, err := conn[e].Write(p); ch <- wresT{n, err} }()
 		opn := "XWrite"
 		wait := longWait
 		if split {
-			opn, wait = "XWriteStart", parkWait
+			opn = "XWriteStart"
+			if blocks && forever {
+				wait = parkWait
+			}
 		} else if forever {
 			wait = shortWait
 		}
+		opc := "(" + opn + " " + enc(p) + ")"
 		select {
 		case r := <-ch:
 			if r.err == nil {
 				sh.doWrite(e, len(p))
 			}
-			emit(e, "("+opn+" "+enc(p)+")", obsW(r.n, r.err))
+			settle()
+			emit(e, opc, obsW(r.n, r.err))
 			sig["w:"+werr(r.err)+fmt.Sprint(split)] = true
 		case <-time.After(wait):
 			if split {
-				pw[e], pwp[e] = ch, p
-				sh.d[wd(e)].wpark, sh.d[wd(e)].wparkN = true, len(p)
-				emit(e, "("+opn+" "+enc(p)+")", "ObParked")
+				pw[e] = &parkedW{ch: ch, p: p}
+				sh.d[wd(e)].wpark = true
+				emit(e, opc, "ObParked")
 				sig["w:parked"] = true
 			} else {
-				emit(e, "("+opn+" "+enc(p)+")", "ObBlocked")
+				emit(e, opc, "ObBlocked")
 				sig["w:blocked"] = true
 				blocked = true
 			}
 		}
 	}
 	doRead := func(e, n int, split bool) {
-		_, forever := sh.readBlocks(e, n)
+		blocks, forever := sh.readBlocks(e, n)
+		if rsoon[e] {
+			split = false
+		}
 		ch := make(chan rresT, 1)
 		go func() {
 			buf := make([]byte, n)
@@ -296,65 +395,88 @@ func runPipe(d desc) hlib.Case {
 		opn := "XRead"
 		wait := longWait
 		if split {
-			opn, wait = "XReadStart", parkWait
+			opn = "XReadStart"
+			if blocks && forever {
+				wait = parkWait
+			}
 		} else if forever {
 			wait = shortWait
 		}
+		opc := fmt.Sprintf("(%s %d)", opn, n)
 		select {
 		case r := <-ch:
-			sh.doRead(e, n)
-			emit(e, fmt.Sprintf("(%s %d)", opn, n), obsR(r.d, r.err))
+			shRead(e, n, len(r.d))
+			settle()
+			emit(e, opc, obsR(r.d, r.err))
 			sig[fmt.Sprintf("r:%s:%v:%v:%v", rerr(r.err), len(r.d) == n, len(r.d) == 0, split)] = true
 		case <-time.After(wait):
 			if split {
-				pr[e], prn[e] = ch, n
+				pr[e] = &parkedR{ch: ch, n: n}
 				sh.d[rd(e)].rpark = true
-				emit(e, fmt.Sprintf("(%s %d)", opn, n), "ObParked")
+				emit(e, opc, "ObParked")
 				sig["r:parked"] = true
 			} else {
-				emit(e, fmt.Sprintf("(%s %d)", opn, n), "ObBlocked")
+				emit(e, opc, "ObBlocked")
 				sig["r:blocked"] = true
 				blocked = true
 			}
 		}
 	}
 	joinWrite := func(e int) {
-		if pw[e] == nil {
+		w := pw[e]
+		if w == nil {
 			return
 		}
-		ch, p := pw[e], pwp[e]
-		select {
-		case r := <-ch:
-			pw[e] = nil
-			sh.d[wd(e)].wpark = false
-			if r.err == nil {
-				sh.d[wd(e)].chunks = append(sh.d[wd(e)].chunks, len(p))
+		opc := "(XWriteJoin " + enc(w.p) + ")"
+		if w.res == nil {
+			select {
+			case r := <-w.ch:
+				w.res = &r
+				if r.err == nil && !w.sent {
+					sh.d[wd(e)].chunks = append(sh.d[wd(e)].chunks, len(w.p))
+				}
+				sh.d[wd(e)].wpark = false
+			case <-time.After(shortWait):
+				emit(e, opc, "ObBlocked")
+				sig["wj:blocked"] = true
+				blocked = true
+				return
 			}
-			emit(e, "(XWriteJoin "+enc(p)+")", obsW(r.n, r.err))
-			sig["wj:"+werr(r.err)] = true
-		case <-time.After(shortWait):
-			emit(e, "(XWriteJoin "+enc(p)+")", "ObBlocked")
-			sig["wj:blocked"] = true
-			blocked = true
 		}
+		pw[e] = nil
+		settle()
+		emit(e, opc, obsW(w.res.n, w.res.err))
+		sig["wj:"+werr(w.res.err)] = true
 	}
 	joinRead := func(e int) {
-		if pr[e] == nil {
+		r := pr[e]
+		if r == nil {
 			return
 		}
-		ch, n := pr[e], prn[e]
-		select {
-		case r := <-ch:
-			pr[e] = nil
-			sh.d[rd(e)].rpark = false
-			sh.doRead(e, n)
-			emit(e, fmt.Sprintf("(XReadJoin %d)", n), obsR(r.d, r.err))
-			sig[fmt.Sprintf("rj:%s:%v", rerr(r.err), len(r.d))] = true
-		case <-time.After(shortWait):
-			emit(e, fmt.Sprintf("(XReadJoin %d)", n), "ObBlocked")
-			sig["rj:blocked"] = true
-			blocked = true
+		opc := fmt.Sprintf("(XReadJoin %d)", r.n)
+		if r.res == nil {
+			select {
+			case x := <-r.ch:
+				r.res = &x
+				shRead(e, r.n, len(x.d))
+				sh.d[rd(e)].rpark = false
+			case <-time.After(shortWait):
+				emit(e, opc, "ObBlocked")
+				sig["rj:blocked"] = true
+				blocked = true
+				return
+			}
 		}
+		pr[e] = nil
+		settle()
+		emit(e, opc, obsR(r.res.d, r.res.err))
+		sig[fmt.Sprintf("rj:%s:%v", rerr(r.res.err), len(r.res.d) > 0)] = true
+	}
+	doClose := func(e int) {
+		conn[e].Close()
+		sh.stopped = true
+		settle()
+		emit(e, "XClose", "ObNil")
 	}
 	for _, o := range d.Ops {
 		if blocked {
@@ -382,18 +504,14 @@ func runPipe(d desc) hlib.Case {
 		case "rj":
 			joinRead(e)
 		case "c":
-			conn[e].Close()
-			sh.stopped = true
-			if parked() {
-				time.Sleep(parkWait) // let parked calls see stopCh
-			}
-			emit(e, "XClose", "ObNil")
+			doClose(e)
 		case "sw":
 			if pw[e] != nil {
 				continue
 			}
 			conn[e].SetWriteDeadline(dlTime(o.K))
 			sh.d[wd(e)].wfire = o.K == "past" || o.K == "soon"
+			wsoon[e] = o.K == "soon"
 			emit(e, "(XSetW "+kcoq(o.K)+")", "ObNil")
 			sig["sw:"+o.K] = true
 		case "sr":
@@ -402,19 +520,15 @@ func runPipe(d desc) hlib.Case {
 			}
 			conn[e].SetReadDeadline(dlTime(o.K))
 			sh.d[rd(e)].rfire = o.K == "past" || o.K == "soon"
+			rsoon[e] = o.K == "soon"
 			emit(e, "(XSetR "+kcoq(o.K)+")", "ObNil")
 			sig["sr:"+o.K] = true
 		}
 	}
 	fin := d.Fin && !blocked
 	if fin {
-		// the observer closes and drains both directions
-		conn[1].Close()
-		sh.stopped = true
-		if parked() {
-			time.Sleep(parkWait)
-		}
-		emit(1, "XClose", "ObNil")
+		// the observer closes, joins what it started and drains both directions
+		doClose(1)
 		for e := 1; e <= 2 && !blocked; e++ {
 			joinWrite(e)
 		}
@@ -424,6 +538,7 @@ func runPipe(d desc) hlib.Case {
 		for e := 1; e <= 2 && !blocked; e++ {
 			conn[e].SetReadDeadline(time.Time{})
 			sh.d[rd(e)].rfire = false
+			rsoon[e] = false
 			emit(e, "(XSetR KZero)", "ObNil")
 			for k := 0; k < 16 && !blocked; k++ {
 				before := len(recs)
@@ -433,6 +548,7 @@ func runPipe(d desc) hlib.Case {
 				}
 			}
 		}
+		fin = !blocked
 	}
 	pc.Close() // release anything still parked
 	keys := hlib.SortedKeys(sig)
@@ -1166,11 +1282,11 @@ func corpus() []desc {
 		// split-phase: a parked write is released by a read / by Close / by its deadline
 		{Kind: "pipe", Fin: true, Ops: []pop{w(1, "1"), w(1, "2"), w(1, "3"), w(1, "4"), {E: 1, Op: "ws", Data: hlib.B("5")}, rdo(2, 1), {E: 1, Op: "wj"}, rdo(2, 100)}},
 		{Kind: "pipe", Fin: true, Ops: []pop{w(1, "1"), w(1, "2"), w(1, "3"), w(1, "4"), {E: 1, Op: "ws", Data: hlib.B("5")}, cl(2), {E: 1, Op: "wj"}, rdo(2, 100)}},
-		{Kind: "pipe", Fin: true, Ops: []pop{w(1, "1"), w(1, "2"), w(1, "3"), w(1, "4"), {E: 1, Op: "sw", K: "soon"}, {E: 1, Op: "ws", Data: hlib.B("5")}, {E: 1, Op: "wj"}}},
+		{Kind: "pipe", Fin: true, Ops: []pop{w(1, "1"), w(1, "2"), w(1, "3"), w(1, "4"), {E: 1, Op: "sw", K: "soon"}, w(1, "5"), {E: 1, Op: "sw", K: "past"}, {E: 1, Op: "ws", Data: hlib.B("6")}}},
 		// split-phase: a parked read is released by a write / by Close / by its deadline
 		{Kind: "pipe", Fin: true, Ops: []pop{{E: 2, Op: "rs", N: 5}, w(1, "abcdefg"), {E: 2, Op: "rj"}, rdo(2, 5)}},
 		{Kind: "pipe", Fin: true, Ops: []pop{{E: 2, Op: "rs", N: 5}, cl(1), {E: 2, Op: "rj"}}},
-		{Kind: "pipe", Fin: true, Ops: []pop{{E: 2, Op: "sr", K: "soon"}, {E: 2, Op: "rs", N: 5}, {E: 2, Op: "rj"}, w(1, "z"), rdo(2, 5)}},
+		{Kind: "pipe", Fin: true, Ops: []pop{{E: 2, Op: "sr", K: "soon"}, rdo(2, 5), {E: 2, Op: "sr", K: "past"}, {E: 2, Op: "rs", N: 5}, w(1, "z"), rdo(2, 5)}},
 		// listener
 		{Kind: "ln", LOps: []lnop{{"d", 0}, {"d", 1}, {"a", 0}, {"a", 1}, {"d", 2}, {"c", 0}, {"d", 3}, {"a", 2}, {"c", 1}}},
 		{Kind: "ln", LOps: []lnop{{"as", 0}, {"d", 0}, {"aj", 0}, {"as", 1}, {"c", 0}, {"aj", 1}}},
